@@ -225,6 +225,7 @@ Proof.
   destruct (negb (o_impl o)); [apply prot_set_deny|].
   destruct (negb lua); [apply prot_set_deny|].
   destruct (d_url d); [assumption|].
+  destruct (negb (o_prefix_ok o)); [apply prot_set_deny|].
   destruct (o_backend o); [|apply prot_set_deny].
   right. cbn. eauto.
 Qed.
@@ -235,6 +236,7 @@ Proof.
   intros lua d a o Hu Ho. unfold oauth_step. rewrite Ho, Hu.
   destruct (negb (o_impl o)); [apply prot_set_deny|].
   destruct (negb lua); [apply prot_set_deny|].
+  destruct (negb (o_prefix_ok o)); [apply prot_set_deny|].
   destruct (o_backend o); [|apply prot_set_deny].
   right. cbn. eauto.
 Qed.
@@ -479,7 +481,7 @@ Qed.
 Definition bad_url : url_in :=
   {| u_parse := true; u_proto := PHttp; u_dns := false; u_port := false; u_ns := false;
      u_xns := false; u_found := false; u_target := 2 |}.
-Definition oauth_ok : odecl := {| o_impl := true; o_backend := Some 9%N; o_prefix := 1; o_tag := 5 |}.
+Definition oauth_ok : odecl := {| o_impl := true; o_prefix_ok := true; o_backend := Some 9%N; o_prefix := 1; o_tag := 5 |}.
 
 (* the defect repaired by fixes/C18-oauth-authurl-reset.patch: oauth + an auth-url that fails *)
 Example ex_oauth_bad_url :
@@ -720,7 +722,8 @@ Proof.
   assert (Ha0 : a_name a0 = Some (NAuth p)).
   { revert Hn. unfold oauth_step. destruct (d_oauth d) as [o|]; [|auto].
     destruct (negb (o_impl o)); [cbn; auto|]. destruct (negb lua); [cbn; auto|].
-    destruct (d_url d); [auto|]. destruct (o_backend o); cbn; [intros [=]|auto]. }
+    destruct (d_url d); [auto|]. destruct (negb (o_prefix_ok o)); [cbn; auto|].
+    destruct (o_backend o); cbn; [intros [=]|auto]. }
   destruct (Hall d a0 _ Hda Ha0) as (q & u & tag & t & Hq & Hu & Hr & Hb).
   inversion Hq; subst q. exists d, u, tag, t. repeat split; auto.
   eapply in_combine_l; eauto.
@@ -805,3 +808,11 @@ Proof.
   intros H Hb Hu. destruct (host_loop_sound _ _ _ _ _ _ _ _ _ Hs H) as (_ & Hk & _).
   apply Hk; [assumption|]. apply in_or_app. now left.
 Qed.
+
+(* oauth-uri-prefix "/" or "": the allowed path would be "/" and exempt every request *)
+Example ex_oauth_root_prefix :
+  snd (process_backend true (fun _ => false) [] px_default
+    [ {| d_id := 1; d_url := None; d_place := PlBackend; d_host := 1; d_key := 1;
+         d_oauth := Some {| o_impl := true; o_prefix_ok := false; o_backend := Some 1%N; o_prefix := 1; o_tag := 5 |} |} ])
+  = [ (1%N, deny_cfg) ].
+Proof. reflexivity. Qed.
